@@ -80,6 +80,11 @@ def free_policy(ctx, **kw):
     from symtt import state, lapack
     if 'tab' not in _OW:
         _OW['tab'] = lapack.calibrate_overwrite()
+    ex = state.S.explorer
     state.reset()
+    state.S.explorer = ex            # keep an active path explorer across the reset
+    if ex is not None:
+        for a in ctx.assumptions:
+            ex.assume(a)
     kw.setdefault('assume_sorted_spectrum', False)
     return lapack.set_policy(lapack.FreePolicy(model_overwrite=True, overwrite_table=_OW['tab'], **kw))
